@@ -207,3 +207,15 @@ void h_sort(void) {
   for (int j = 0; j < N; j++) ASSERT(E[j].v.val == in_v[j], "sort moves references, not values");
   COVER_ALT(N < 2 || in_v[0] > in_v[1], "sort has work to do"); COVER_ALT(N < 2 || in_v[0] == in_v[1], "sort with duplicates");
 }
+
+/* C01: the container's Mark instance hands every element to the collector's callback, once */
+static int cv_mk_calls, cv_mk_hits; static var cv_mk_watch, cv_mk_gc;
+static void cv_mark_cb(var g, void* p) { cv_mk_calls++; if (g != cv_mk_gc) cv_mk_calls += 100; if (p == cv_mk_watch) cv_mk_hits++; }
+void h_mark(void) {
+  arbitrary_tuple();
+  size_t gh_j = nondet_ulong(); __CPROVER_assume(N == 0 || gh_j < N);
+  cv_mk_gc = &X; cv_mk_watch = N ? old_item[gh_j] : NULL;
+  Tuple_Mark(t, cv_mk_gc, cv_mark_cb);
+  ASSERT(cv_mk_calls == N && (N == 0 || cv_mk_hits == 1), "[C01] Tuple_Mark passes every item to the callback exactly once");
+  COVER_ALT(1, "mark done");
+}
